@@ -40,7 +40,8 @@ MSG = re.compile(r"\((-?\d+): ")
 
 
 def _mods():
-    from chempy import Reaction, ReactionSystem, Substance
+    from chempy import Reaction, ReactionSystem, Substance, Equilibrium
+    from chempy.equilibria import EqSystem
     from chempy.kinetics.ode import get_odesys, _create_odesys
     return locals()
 
@@ -60,13 +61,15 @@ def make_substances(M, case):
     return out
 
 
-def make_reactions(M, case, params):
-    return [M["Reaction"](dict(rx["reac"]), dict(rx["prod"]), params[j],
+def make_reactions(M, case, params, cls="Reaction"):
+    return [M[cls](dict(rx["reac"]), dict(rx["prod"]), params[j],
                           inact_reac=dict(rx["ireac"]) or None, inact_prod=dict(rx["iprod"]) or None)
             for j, rx in enumerate(case["rxns"])]
 
 
 def construct(M, case, rxns, subs, **kw):
+    if rxns and isinstance(rxns[0], M["Equilibrium"]):
+        return M["EqSystem"](rxns, subs, **kw)
     if case.get("route") == "keys" and all(s["how"] == "formula" for s in case["subs"]):
         return M["ReactionSystem"](rxns, [s["key"] for s in case["subs"]], substance_factory=M["Substance"].from_formula, **kw)
     return M["ReactionSystem"](rxns, subs, **kw)
@@ -120,15 +123,31 @@ def check_admit(case, ctx):
             allk.update(v)
         ctx.label("violated:charge_only" if allk == {0} else "violated:one_element" if (len(allk) == 1) else "violated:several")
     subs = make_substances(M, case)
-    rxns = make_reactions(M, case, [j + 1 for j in range(len(case["rxns"]))])
+    eqsys = case.get("route") == "eqsys"
+    if eqsys:
+        ctx.label("route=EqSystem")
+    rxns = make_reactions(M, case, [j + 1 for j in range(len(case["rxns"]))], "Equilibrium" if eqsys else "Reaction")
     res = sut(construct, M, case, rxns, subs)
     if balanced:
         if is_err(res):
             ctx.fail("balanced_system_rejected", error=repr(res))
             return
-        check_balance_vectors(ctx, res, case, "accepted")
+        ref = check_balance_vectors(ctx, res, case, "accepted")
         if res.check_balance(strict=True) is not True:
             ctx.fail("check_balance_false_for_balanced")
+        if res.obeys_charge_neutrality() is not True:      # integer charges: exact
+            ctx.fail("obeys_charge_neutrality_false_for_balanced")
+        if eqsys and ref is not None:
+            # EqSystem.composition_conservation: totals of small integer vectors are exact in floating point
+            Bref, ck = ref
+            c1 = [(3 * i + 1) % 7 for i in range(len(subs))]
+            c0 = [(5 * i + 2) % 11 for i in range(len(subs))]
+            keys_, t1, t0 = res.composition_conservation(dict(zip(subs, c1)), dict(zip(subs, c0)))
+            want1 = [sum(b * c for b, c in zip(row, c1)) for row in Bref]
+            want0 = [sum(b * c for b, c in zip(row, c0)) for row in Bref]
+            if list(keys_) != ck or [float(x) for x in t1] != want1 or [float(x) for x in t0] != want0:
+                ctx.fail("composition_conservation_totals", got=[list(keys_), [float(x) for x in t1], [float(x) for x in t0]],
+                         expected=[ck, want1, want0])
     else:
         if not is_err(res):
             ctx.fail("unbalanced_system_accepted", violations=[{str(k): v for k, v in d.items()} for d in viol])
@@ -150,6 +169,8 @@ def check_admit(case, ctx):
         loose = construct(M, case, rxns, subs, checks=())
         if loose.check_balance(strict=True) is not False:
             ctx.fail("check_balance_true_for_unbalanced")
+        if loose.obeys_charge_neutrality() is not (not any(0 in v for v in viol)):
+            ctx.fail("obeys_charge_neutrality_wrong_for_unbalanced", violations=[{str(k): x for k, x in d.items()} for d in viol])
     # per-reaction helpers (anchors): charge exactly, mass within rounding
     for rx, rxn, v in zip(case["rxns"], rxns, viol):
         q = rxn.charge_neutrality_violation(subs)
@@ -301,12 +322,12 @@ def check_dynamics(case, ctx):
 
 
 SUBCHECKS = [
-    SubCheck("admit", check_admit, strategy=G.composed_systems(max_rxn=6), quick=1600, thorough=60000,
+    SubCheck("admit", check_admit, strategy=G.composed_systems(max_rxn=6), quick=1600, thorough=40000,
              rule="1-6 reactions, one of them possibly broken; constructor verdict, error message, check_balance, "
                   "composition_balance_vectors, charge/mass violation helpers",
              tolerances={"mass_balance_rel_sum_abs": TOL_MASS}),
     SubCheck("dynamics", check_dynamics, strategy=G.composed_systems(max_rxn=5, broken=False, kinetics=True), quick=240,
-             thorough=8000,
+             thorough=6000,
              rule="balanced systems with rate constants 1e-4..1e3, y0 in {0..3}: linear_invariants of both builders, "
                   "symbolic B*f == 0, scipy integration (atol=rtol=1e-9), linear_dependencies() and (preferred)",
              tolerances={"conservation_rel_absB_max_abs_y": TOL_CONSERVATION}),
